@@ -71,7 +71,51 @@ def mutation_targets(fn: ast.AST) -> List[Tuple[ast.AST, ast.AST]]:
     return out
 
 
-def check_no_mutation(repo: Repo, R: Report, rule: str, rel: str, qualname: str, params: List[str]) -> int:
+FRESH_CTORS = {"dict", "list", "set", "frozenset", "tuple", "sorted", "copy", "deepcopy", "OrderedDict", "defaultdict", "str", "int", "float", "bool", "len"}
+
+
+def _aliased_through_call(flow, container: ast.AST, owned: Set[str], depth: int = 0) -> Optional[str]:
+    """The mutated object can be one that a callee built around / handed back from a caller-owned argument: it is read
+    out of (an attribute, element or field of) the result of a call that was given a value derived from *owned*, with no
+    copy in between.  The callee may keep its argument inside what it returns (a node object keeps the parameter mapping
+    of its configuration), so the object is the caller's until copied.  Returns a description, or None."""
+    from .c04_rest import _show_leaf
+
+    for root, rest in sorted(flow.origins(container), key=lambda l: (getattr(l[0], "lineno", 0), getattr(l[0], "col_offset", 0))):
+        via: Optional[ast.AST] = None
+        if isinstance(root, ast.Attribute):
+            via = root.value
+        elif isinstance(root, ast.Call) and rest:
+            via = root
+        if via is None:
+            continue
+        calls: List[ast.Call] = []
+        if isinstance(via, ast.Call):
+            calls = [via]
+        else:
+            hops = 0
+            bases = [via]
+            while bases and hops < 3:
+                nxt: List[ast.AST] = []
+                for b in bases:
+                    for r2, _p2 in flow.origins(b):
+                        if isinstance(r2, ast.Call):
+                            calls.append(r2)
+                        elif isinstance(r2, ast.Attribute) and r2 is not b:
+                            nxt.append(r2.value)
+                bases, hops = nxt, hops + 1
+        for c in calls:
+            if call_attr(c) in FRESH_CTORS:
+                continue
+            fed: Set[str] = set()
+            for a in list(c.args) + [kw.value for kw in c.keywords]:
+                fed |= flow.feeds(a)[0] & owned
+            if fed:
+                return f"`{_show_leaf((root, rest))}` is part of what `{norm(c)[:50]}` returned for the caller's `{sorted(fed)[0]}`"
+    return None
+
+
+def check_no_mutation(repo: Repo, R: Report, rule: str, rel: str, qualname: str, params: List[str], through_calls: bool = False) -> int:
     """Every in-place mutation in the function hits an object this call created, never one that is (part of) what
     the caller handed in through *params*.
 
@@ -96,9 +140,52 @@ def check_no_mutation(repo: Repo, R: Report, rule: str, rel: str, qualname: str,
             continue  # unrelated to the caller-owned inputs
         n_sites += 1
         shared = sorted(_show_leaf(l) for l in flow.origins(container) if isinstance(l[0], ast.Name) and l[0].id in owned and l[0].id in flow.params)
+        via = _aliased_through_call(flow, container, owned) if through_calls and not shared else None
+        if via is not None:
+            R.check(False, rule, rel, qualname, norm(st),
+                    f"in-place mutation of `{norm(container)[:50]}`, which was not copied: {via} - the callee keeps the mapping it was configured with, so this writes into the node configuration the caller still holds; canonicalising the same node list afterwards (Pipeline(...), build_canonical_spec) sees the modified parameters and yields other node uuids / ids than before the call", st.lineno)
+            continue
         R.check(not shared, rule, rel, qualname, norm(st),
                 f"in-place mutation of an object reachable from the caller-owned `{'/'.join(params)}` (`{norm(container)[:50]}` can be `{shared[0] if shared else ''}`): the next run of the same Pipeline hashes the modified spec and gets different identities", st.lineno)
     return n_sites
+
+
+def node_config_consumers(repo: Repo) -> List[Tuple[str, str, str]]:
+    """(file, function, parameter) of the package functions that are handed the node configurations next to the
+    canonicaliser: in build_inspection_payload (normal form) every call that receives the very value that is also the
+    argument of build_canonical_spec - and build_canonical_spec itself.  Found by value origin, not by name."""
+    from .c04_rest import BUILDER, flow_of
+
+    flow = flow_of(repo, BUILDER, "build_inspection_payload")
+    mod = repo.module(BUILDER)
+    canon = [c for c in calls_in(flow.fn) if call_attr(c) == "build_canonical_spec" and c.args]
+    if not canon:
+        raise AnalysisError("build_inspection_payload: no build_canonical_spec(<nodes>) call (anchor of the node-configuration consumers)")
+    key = lambda leaves: {(id(r), p) for r, p in leaves}  # noqa: E731
+    node_vals = set().union(*[key(flow.origins(c.args[0])) for c in canon])
+    out: List[Tuple[str, str, str]] = []
+    for c in calls_in(flow.fn):
+        for tm, tf in repo.resolve_call(mod, c):
+            if not isinstance(tf, FuncNode) or tm.defs.get(qualname_of(tf)) is not tf:
+                continue
+            pos = [a.arg for a in tf.args.posonlyargs + tf.args.args]
+            bound = [(pos[i], a) for i, a in enumerate(c.args) if i < len(pos) and not isinstance(a, ast.Starred)] + [(kw.arg, kw.value) for kw in c.keywords if kw.arg]
+            for pname, a in bound:
+                if isinstance(a, ast.Constant):
+                    continue
+                if key(flow.origins(a)) & node_vals and (tm.rel, qualname_of(tf), pname) not in out:
+                    out.append((tm.rel, qualname_of(tf), pname))
+    return out
+
+
+def no_mutation_of_node_configs(repo: Repo, R: Report) -> None:
+    """C04-D3c: the consumers of the node list leave it as they found it."""
+    r = R.rule("C04-D3c-node-configs-not-mutated", "no function that is handed the node configurations next to the canonicaliser (the inspection builder, build_canonical_spec) mutates in place an object that is, or may still be part of, a node mapping of its caller - also not through what a callee returned for it (a node object keeps the parameter mapping of its configuration) unless it copied first: the same node list is canonicalised afterwards (inspect-then-build in the CLI, build_inspection_payload, a second Pipeline), and its identities must not depend on whether it was inspected before", 8)
+    consumers = node_config_consumers(repo)
+    if len(consumers) < 2:
+        raise AnalysisError(f"node-configuration consumers not found by role in build_inspection_payload (got {consumers})")
+    for rel, qn, pname in consumers:
+        check_no_mutation(repo, R, r, rel, qn, [pname], through_calls=True)
 
 
 def no_mutation_of_hashed_input(repo: Repo, R: Report) -> None:
@@ -119,6 +206,7 @@ def run(repo: Repo, R: Report) -> None:
     R.undecided("YAML-text level rewrites (decided by the YAML parser); cross-process equality beyond the absence of ambient / hash-seed dependent constructs")
     R.undecided("the repr() fallback of variable_domain_signature / _json_safe_sample for values json.dumps rejects (C04-D2b accepts a rendering that is only reached after json.dumps of the same value failed): a sequence element that is a mapping holding a non-JSON scalar (YAML date) is still rendered in key order, a YAML !!set in hash-seed order - residual of the unchanged tree, reproduced by hand")
     no_mutation_of_hashed_input(repo, R)
+    no_mutation_of_node_configs(repo, R)
     from . import c04_rest
 
     c04_rest.run(repo, R)
